@@ -6,8 +6,9 @@
   chain/account SetBalance / SetSuicide / undo, tx_processor.go applyTx / ApplyTxs / chargeForGas).  An execution is a tree of
   frames (CALL / CALLCODE / DELEGATECALL / STATICCALL / CREATE with their operands, SELFDESTRUCTs, how each body ended);
   the tree is an INPUT, every balance and success flag is computed.  Tied by the `evmv` lines of `hx c05`: the tree is
-  recorded with a vm.Tracer on the real engine, the initial balances are the generator's, the final balance of every named
-  address and every success flag must be the model's.
+  recorded with a vm.Tracer on the real engine — per frame only how its BODY ended by itself (last step at the callee's
+  depth), never the flag the caller saw; refusals (depth limit, CanTransfer, read-only) are the model's to decide —, the
+  initial balances are the generator's, the final balance of every named address and every success flag must be the model's.
 
   All theorems hold for ALL frame trees, depths, read-only modes and states (mutual structural induction over the tree).
 
@@ -16,11 +17,14 @@
                               sub-frames did, self-destructs included: proved from the UNDO of the journal entries
                               (`EvmValueJournal.Reach`), not assumed.
   * `evm_conserves`           Σ balances after = Σ before − burnt, `burnt` = what the committed self-destructs with the
-                              contract itself as beneficiary held; `burnt_nonneg`, `burnt_zero_of_no_kill`.
+                              contract itself as beneficiary held; `burnt_nonneg`, `evm_conserves_exact` (no SELFDESTRUCT).
   * `evm_nonneg`              no balance negative afterwards if none was before and all value operands are ≥ 0.
-  * `value_moves_iff_success` a leaf CALL: succeeds iff depth ≤ 1024 ∧ balance ≥ value ∧ the body ended well; then exactly
-                              `value` moved from caller to callee, else nothing moved.
-  * `callcode_moves_nothing`, `delegatecall_moves_nothing`, `static_moves_nothing`: the three kinds that never transfer.
+  * `frame_effect`            ANY frame, ARBITRARY body: succeeds iff depth ≤ 1024 ∧ (CALL / CALLCODE / CREATE: balance ≥ value)
+                              ∧ the body ran to its end ∧ ended well; then its state is the body's run on the state after the
+                              entry transfer (CALL / CREATE) or on the untouched state (`no_transfer_frame`: CALLCODE /
+                              DELEGATECALL / STATICCALL); else the state before.
+  * `value_moves_iff_success`, `callcode_moves_nothing`, `delegatecall_moves_nothing`: the EMPTY-BODY (`.nil`) instances
+                              spelled out per balance; `static_moves_nothing` / `staticcall_moves_nothing`: arbitrary bodies.
   * transactions / blocks: `applyTx_supply`, `failed_tx_moves_only_fee`, `applyTx_nonneg`, `discarded_tx_free`,
     `applyTxs_supply`, `evmBlock_conserves` (miner with income address), `evmBlock_fee_vanishes` (without: the known
     finding c05/fee-vanishes, restated for EVM blocks).
@@ -468,8 +472,8 @@ theorem staticcall_moves_nothing (callee : Nat) (value : Int) (body : Actions) (
       rw [Reach.revert (Reach.trans (enter_reach .staticcall s self callee value) (execBody_reach body _ _ _ _))]
       exact ⟨rfl, trivial⟩
 
-/-- CALLCODE moves no value by itself: with a body that does nothing, nothing moves — although CALLCODE does ask
-    CanTransfer(caller, value) and fails without funds -/
+/-- CALLCODE moves no value by itself — stated here FOR A FRAME WITH AN EMPTY BODY (`.nil`): nothing moves, although CALLCODE
+    does ask CanTransfer(caller, value) and fails without funds. Arbitrary bodies: `no_transfer_frame` / `frame_effect`. -/
 theorem callcode_moves_nothing (callee : Nat) (value : Int) (o : Outcome) (depth : Nat) (static : Bool) (self : Nat) (s : St) :
     (execFrame depth static self s (.mk .callcode callee value .nil o)).st = s := by
   rw [execFrame_mk]
@@ -483,7 +487,8 @@ theorem callcode_moves_nothing (callee : Nat) (value : Int) (o : Outcome) (depth
     · rfl
     · exact revertTo_ge s _ (Nat.le_refl _)
 
-/-- DELEGATECALL moves no value by itself and never asks for funds: it fails only by depth or through its body -/
+/-- DELEGATECALL moves no value by itself and never asks for funds — stated here FOR A FRAME WITH AN EMPTY BODY (`.nil`): it
+    fails only by depth or its outcome. Arbitrary bodies: `no_transfer_frame` / `frame_effect`. -/
 theorem delegatecall_moves_nothing (callee : Nat) (value : Int) (o : Outcome) (depth : Nat) (static : Bool) (self : Nat) (s : St) :
     (execFrame depth static self s (.mk .delegatecall callee value .nil o)).st = s ∧
       ((execFrame depth static self s (.mk .delegatecall callee value .nil o)).ok = true ↔ (depth ≤ callCreateDepth ∧ o = .ok)) := by
@@ -528,8 +533,8 @@ theorem transfer_bal_ne (s : St) (a b : Nat) (v : Int) (hab : a ≠ b) :
   · intro x hxa hxb
     rw [upd_other _ _ _ _ hxb, upd_other _ _ _ _ hxa]
 
-/-- VALUE MOVES IFF SUCCESS, for one CALL whose callee does nothing that concerns LEMO (an account without code, or code
-    that neither calls nor self-destructs): the call succeeds iff the depth limit is respected, the caller owns at least
+/-- VALUE MOVES IFF SUCCESS, for one CALL WITH AN EMPTY BODY (`.nil`: the callee does nothing that concerns LEMO — an account
+    without code, or code that neither calls nor self-destructs; arbitrary bodies: `frame_effect`): the call succeeds iff the depth limit is respected, the caller owns at least
     `value` and the callee's code ended well; if it succeeds exactly `value` moved from the caller to the callee and nothing
     else changed; if it does not, nothing changed at all. -/
 theorem value_moves_iff_success (callee : Nat) (value : Int) (o : Outcome) (depth : Nat) (static : Bool) (self : Nat) (s : St)
@@ -565,6 +570,64 @@ theorem value_moves_iff_success (callee : Nat) (value : Int) (o : Outcome) (dept
       simp only
       rw [he]
       exact transfer_bal_ne s self callee value hne
+
+/-- the three kinds that never call `Transfer` start their body in the caller's state, untouched -/
+theorem enter_no_transfer (kind : Kind) (hk : movesValue kind = false) (s : St) (self callee : Nat) (value : Int) :
+    enter kind s self callee value = s := by
+  unfold enter; rw [hk]; simp
+
+/-- ONE FRAME OF ANY KIND WITH AN ARBITRARY BODY (the general form of `value_moves_iff_success` / `callcode_moves_nothing` /
+    `delegatecall_moves_nothing`, which are its `.nil`-body instances). With `b` = the run of the body in the state after
+    the entry (`enter`: `Transfer(caller, callee, value)` for CALL / CREATE, NOTHING for the other three kinds):
+    * the frame succeeds iff the depth limit is respected, the caller owns `value` (kinds that ask CanTransfer), the body
+      ran to its end (no write-protection refusal) and ended well;
+    * if it succeeds its state is exactly `b`'s: the frame itself contributed the entry transfer and nothing else;
+    * if it does not, the state is the caller's state before the frame. -/
+theorem frame_effect (kind : Kind) (callee : Nat) (value : Int) (body : Actions) (o : Outcome) (depth : Nat) (static : Bool)
+    (self : Nat) (s : St) :
+    let b := execBody (depth + 1) (static || kind == .staticcall) (ctxOf kind callee self) (enter kind s self callee value) body
+    let r := execFrame depth static self s (.mk kind callee value body o)
+    (r.ok = true ↔ (depth ≤ callCreateDepth ∧ (needsFunds kind = true → value ≤ s.bal self) ∧ b.ok = true ∧ o = .ok)) ∧
+    (r.ok = true → r.st = b.st) ∧ (r.ok = false → r.st = s) := by
+  intro b r
+  have hr : r = execFrame depth static self s (.mk kind callee value body o) := rfl
+  refine ⟨?_, ?_, fun h => failed_frame_no_value _ depth static self s h⟩
+  · rw [hr, execFrame_mk]
+    by_cases hb : blocked depth kind s self value = true
+    · rw [if_pos hb]
+      have hb' : depth > callCreateDepth ∨ (needsFunds kind = true ∧ s.bal self < value) := by
+        simpa [blocked] using hb
+      constructor
+      · intro h; cases h
+      · intro h
+        rcases hb' with h1 | h1
+        · omega
+        · have := h.2.1 h1.1; omega
+    · rw [if_neg hb, finish_ok_iff]
+      have hb' : ¬ depth > callCreateDepth ∧ (needsFunds kind = true → ¬ s.bal self < value) := by
+        simpa [blocked, not_or] using hb
+      constructor
+      · intro h; exact ⟨by omega, fun hk => by have := hb'.2 hk; omega, h.1, h.2⟩
+      · intro h; exact ⟨h.2.2.1, h.2.2.2⟩
+  · rw [hr, execFrame_mk]
+    by_cases hb : blocked depth kind s self value = true
+    · rw [if_pos hb]; intro h; cases h
+    · rw [if_neg hb]
+      intro h
+      have hf := (finish_ok_iff _ _ _).mp h
+      rw [finish_pos _ _ _ hf]
+
+/-- CALLCODE / DELEGATECALL / STATICCALL with an ARBITRARY body move nothing BY THEMSELVES: the final state is what the body
+    made of the caller's own state (success) or the caller's state (failure) — no transfer at the entry, whatever `value` -/
+theorem no_transfer_frame (kind : Kind) (hk : movesValue kind = false) (callee : Nat) (value : Int) (body : Actions)
+    (o : Outcome) (depth : Nat) (static : Bool) (self : Nat) (s : St) :
+    let r := execFrame depth static self s (.mk kind callee value body o)
+    (r.ok = true → r.st = (execBody (depth + 1) (static || kind == .staticcall) (ctxOf kind callee self) s body).st) ∧
+    (r.ok = false → r.st = s) := by
+  intro r
+  have h := frame_effect kind callee value body o depth static self s
+  rw [enter_no_transfer kind hk] at h
+  exact ⟨h.2.1, h.2.2⟩
 
 /-! ### transactions -/
 
